@@ -186,7 +186,7 @@ def ym(y,m):
     >>> assert ym(2000, 13) == (2001,1)
     
     """
-    y = int(y) if is_float(y) and int(y) == y else y
+    y = int(y) if is_int(y) or (is_float(y) and int(y) == y) else y
     m = month(m)
     y += (m-1) // 12
     m = 1 + ((m-1) % 12)
